@@ -109,7 +109,7 @@ Proof.
     destruct (c_eof (wc w5 cid) || _).
     + eapply IH; [exact H5|right; exact Ho5|exact E].
     + destruct (l_et (st w5) && _).
-      * eapply O_trigger; [|exact H5|exact E]. reflexivity.
+      * eapply O_trigger; [| |exact E]; [reflexivity|]. apply O_emit; [oign|exact H5].
       * inversion E; subst. exact H5.
   - eapply (mo_close _ (MBO_all (S f))); eauto.
   - inversion E; subst. exact H4.
@@ -212,9 +212,8 @@ Proof.
         destruct k; inversion E4; subst; exact H5.
     - cbn [andb] in E4.
       pose proof (O_sub _ _ _ data _ (opened_facts _ _ _ _ Eo3) H3) as HS.
-      assert (HS' : OINV (ROut [] [] (OXP cid (c_out (wc w3 cid) ++ data) (c_out (wc w3 cid))))
-                         (ghost "openreply" cid [] (ghost "sub" cid data w3))) by (apply O_emit; [oign|exact HS]).
-      set (w3' := ghost "openreply" cid [] (ghost "sub" cid data w3)) in *.
+      pose proof HS as HS'.
+      set (w3' := ghost "sub" cid data w3) in *.
       assert (Hwc : wc w3' cid = wc w3 cid) by (subst w3'; rewrite !wc_ghost; reflexivity).
       clearbody w3'.
       destruct (c_out (wc w3 cid)) as [|b0 l0] eqn:Eout.
@@ -223,14 +222,12 @@ Proof.
         rewrite E4 in HL. exact HL.
       + inversion E4; subst. eapply O_pend_set; [| | | | |exact HS']; rewrite ?Hwc; auto. }
   clear E4.
-  assert (H4' : OINV R0 (ghost "openreply-end" cid [] w4)) by (apply O_emit; [oign|exact H4]).
-  set (w4e := ghost "openreply-end" cid [] w4) in *. clearbody w4e.
-  destruct (negb ok); [inversion E; subst; exact H4'|].
+  destruct (negb ok); [eapply (mo_close _ M); eauto|].
   match type of E with (let '(r5, w5) := ?X in _) = _ => destruct X as [r5 w5] eqn:E5 end.
   assert (H5 : OINV R0 w5).
-  { destruct (c_out (wc w4e cid)); [inversion E5; subst; exact H4'|].
-    destruct (l_et (st w4e)); [inversion E5; subst; exact H4'|]. eapply O_epctl; eauto. }
-  destruct r5; try (inversion E; subst; exact H5).
+  { destruct (c_out (wc w4 cid)); [inversion E5; subst; exact H4|].
+    destruct (l_et (st w4)); [inversion E5; subst; exact H4|]. eapply O_epctl; eauto. }
+  destruct r5; [|eapply (mo_close _ M); [exact H5|exact E]..].
   destruct act; try (inversion E; subst; exact H5).
   eapply (mo_close _ M); eauto.
 Qed.
@@ -470,15 +467,38 @@ Proof.
   apply ROut_setc; auto.
 Qed.
 
-Lemma el_read_udp_inv : forall fuel fd w r w',
-  OINV R0 w -> el_read_udp fuel fd true w = (r, w') -> OINV R0 w'.
+(* a registered connection that is not skipped is open *)
+Lemma O_hs_add_reg : forall fd cid w, alookup fd (l_reg (st w)) = Some cid ->
+  OINV R0 w -> OINV (RO [] [(cid, false)]) w.
 Proof.
-  intros fuel fd w r w' HI E. unfold el_read_udp in E. pose proof (MBO_all fuel) as M.
+  intros fd cid w Hreg HI. eapply Inv_weaken; [|exact HI]. intros [] x _ HR.
+  pose proof (ro_reglt _ _ _ _ _ _ HR _ _ Hreg) as Hlt.
+  pose proof (ro_regop _ _ _ _ _ _ HR _ _ Hreg) as Hop.
+  destruct HR as [R1 R2 R3 R4 R5 R6 R7 R8 R9 R10 R11 R12]. constructor; auto.
+  intros c b [E|[]]. inversion E; subst. split; [exact Hlt|]. intros L.
+  destruct (Hop L) as [Ho|Hx]; [left; exact Ho|discriminate Hx].
+Qed.
+
+Lemma el_read_udp_inv : forall fuel fd is_listener w r w',
+  OINV R0 w -> el_read_udp fuel fd is_listener w = (r, w') -> OINV R0 w'.
+Proof.
+  intros fuel fd is_listener w r w' HI E. unfold el_read_udp in E. pose proof (MBO_all fuel) as M.
   destruct (sys "recvfrom" _ w) as [k w1] eqn:Es.
   pose proof (O_sys _ _ _ _ _ _ _ _ HI Es) as H1.
   destruct k as [n extra|e|]; [|destruct (is_eagain e); inversion E; subst; exact H1|inversion E; subst; exact H1].
   destruct (negb _ || _ || _); [inversion E; subst; dsync|].
   set (data := match extra with ABytes b :: _ => b | _ => [] end) in *.
+  destruct is_listener.
+  2:{ destruct (alookup fd (l_reg (st w1))) as [cid|] eqn:Er; [|inversion E; subst; dsync].
+      set (w3 := emit _ (wsetc (ghost "udpconn" cid [] w1) cid _)) in E.
+      assert (H3 : OINV (RO [] [(cid, false)]) w3).
+      { subst w3. apply O_emit; [oign|]. apply O_wsetc_same; rewrite ?wc_ghost; auto.
+        apply O_emit; [oign|]. eapply O_hs_add_reg; eauto. }
+      clearbody w3.
+      destruct (handler fuel cid w3) as [[act rep] w4] eqn:Eh.
+      assert (Hin : In (cid, false) [(cid, false)]) by (left; reflexivity).
+      pose proof (mo_handler _ M _ _ _ _ _ _ _ Hin H3 Eh) as H4. apply O_hs_drop in H4.
+      destruct act; inversion E; subst; exact H4. }
   set (w3 := emit _ (with_st w1 _)) in E.
   assert (H3 : OINV (RO [] [(l_next (st w1), true)]) w3).
   { subst w3. apply O_emit; [oign|].
@@ -512,10 +532,11 @@ Lemma dispatch_inv : forall fuel fd ev w r w',
 Proof.
   intros fuel fd ev w r w' HI E. unfold dispatch in E.
   destruct (alookup fd (l_reg (st w))) as [cid|] eqn:Er.
-  - eapply process_io_inv; eauto.
+  - destruct (polopt (st w) && c_udp (wc w cid)); [eapply el_read_udp_inv; eauto|].
+    eapply process_io_inv; eauto.
   - destruct (alookup fd (l_listeners (st w))) as [is_udp|].
     + eapply el_accept_inv; eauto.
-    + eapply O_epctl; eauto.
+    + destruct (polopt (st w)); [inversion E; subst; exact HI|]. eapply O_epctl; eauto.
 Qed.
 
 (* ------------------------------------------------------------------ *)
@@ -676,8 +697,11 @@ Qed.
 Lemma polling_inv : forall fuel w, OINV R0 w -> OINV R0 (polling fuel w).
 Proof.
   induction fuel as [|f IH]; intros w HI; [cbn; dsync|]. rewrite polling_eq. cbv zeta.
-  assert (H0 : OINV R0 (emit ("g", [ASym "count"; AInt (zlen (l_reg (st w))); ABytes []]) w))
+  assert (H00 : OINV R0 (emit ("g", [ASym "count"; AInt (zlen (l_reg (st w))); ABytes []]) w))
     by (apply O_emit; [oign|exact HI]).
+  set (wc0 := emit ("g", [ASym "count"; AInt (zlen (l_reg (st w))); ABytes []]) w) in *.
+  pose proof (Inv_pending_ign ustep out_step tt _ _ (l_reg (st wc0)) wc0 ltac:(intros; oign) H00) as H0.
+  unfold pending_fold in H0. clearbody wc0.
   destruct (pull _) as [[[name evs]|] w1] eqn:Ep.
   2:{ eapply O_pull; eauto. }
   pose proof (O_pull _ _ _ _ _ _ _ H0 Ep) as H1.
